@@ -88,9 +88,11 @@ def run_property(prop, tier, seed):
                 unstable.append('%s: %s' % (u.name, [f.oid for f in u2.failures] + u2.undecided))
     only_untagged = spec.get('only_untagged', False)
 
+    whole_units = set(spec.get('whole_units', []))     # units whose every clause counts for this property, whatever its tags
+
     def _counts(f):
-        if only_untagged:
-            return f.props is None or prop in f.props
+        if f.unit in whole_units:
+            return True
         return f.applies_to(prop)
     for u in units:
         undecided += ['%s: %s' % (u.name, x) for x in u.undecided]
